@@ -86,7 +86,10 @@ func ValidateOrphan(s State, b types.Block) error {
 	for _, txn := range b.Transactions {
 		weight += s.TransactionWeight(txn)
 	}
-	for _, txn := range b.V2Transactions() {
+	for i, txn := range b.V2Transactions() {
+		if err := validateV2PolicyTypes(txn); err != nil {
+			return fmt.Errorf("v2 transaction %v is invalid: %w", i, err)
+		}
 		weight += s.V2TransactionWeight(txn)
 	}
 	if weight > s.MaxBlockWeight() {
@@ -960,10 +963,43 @@ func validateFoundationUpdate(ms *MidState, txn types.V2Transaction) error {
 	return errors.New("transaction changes Foundation address, but does not spend an input controlled by current address")
 }
 
+// validateV2PolicyTypes checks that every spend policy in txn has a type. A
+// policy without a type cannot be encoded (so the transaction has no weight or
+// hash); it cannot be produced by the binary decoder, but it is what JSON such
+// as {"satisfiedPolicy": {"policy": null}} decodes to.
+func validateV2PolicyTypes(txn types.V2Transaction) error {
+	var wellFormed func(p types.SpendPolicy) bool
+	wellFormed = func(p types.SpendPolicy) bool {
+		if p.Type == nil {
+			return false
+		} else if th, ok := p.Type.(types.PolicyTypeThreshold); ok {
+			for _, sp := range th.Of {
+				if !wellFormed(sp) {
+					return false
+				}
+			}
+		}
+		return true
+	}
+	for i, sci := range txn.SiacoinInputs {
+		if !wellFormed(sci.SatisfiedPolicy.Policy) {
+			return fmt.Errorf("siacoin input %v has a spend policy without a type", i)
+		}
+	}
+	for i, sfi := range txn.SiafundInputs {
+		if !wellFormed(sfi.SatisfiedPolicy.Policy) {
+			return fmt.Errorf("siafund input %v has a spend policy without a type", i)
+		}
+	}
+	return nil
+}
+
 // ValidateV2Transaction validates txn within the context of ms.
 func ValidateV2Transaction(ms *MidState, txn types.V2Transaction) error {
 	if ms.base.childHeight() < ms.base.Network.HardforkV2.AllowHeight {
 		return errors.New("v2 transactions are not allowed until v2 hardfork begins")
+	} else if err := validateV2PolicyTypes(txn); err != nil {
+		return err
 	} else if err := validateV2CurrencyOverflow(ms, txn); err != nil {
 		return err
 	} else if weight := ms.base.V2TransactionWeight(txn); weight == 0 {
